@@ -2028,6 +2028,28 @@ def gen_C18(rng, tier):
                 h.ops.append("%s=str@0 %s" % (h.newu(), tok))
                 h.ops.append("%s=str@0 %s" % (h.newb(), tok))
             L.append(h.line())
+    # the histories of the OTHER properties' generators with a table request spliced in at a random point (the lesson of
+    # C18-R9a generalised: every operation family of the protocol — parsing, printing, division, quotient rings, ideals,
+    # interpolation, in-place patterns, error cases — is also run on a field that has its tables)
+    def _tab_ok(line):
+        d = line.split()[1].split(",")[0]
+        if d[0] == "B":
+            return False
+        c = desc_card(d)
+        return c <= 3000 or (d[0] == "P" and c > 200000)
+    per = 40 if tier == "thorough" else 12
+    for g_ in (gen_C05, gen_C06, gen_C07, gen_C08, gen_C10, gen_C13, gen_C14, gen_C15, gen_C16, gen_C17):
+        cand = [l for l in g_(random.Random(rng.randrange(2 ** 30)), "quick") if l.startswith("hist ") and _tab_ok(l)]
+        rng.shuffle(cand)
+        for l in cand[:per]:
+            parts = l.split(" | ")
+            if len(parts) < 2 or len(parts) > 120:
+                continue
+            pos = rng.randrange(1, len(parts) + 1)
+            parts.insert(pos, "tables@0 %d 1 %s" % (rng.randrange(2), rng.choice(["-", "-", "-", "0"])))
+            if rng.random() < 0.3:
+                parts.insert(rng.randrange(pos + 1, len(parts) + 1), "tables@0 1 1 -")
+            L.append(" | ".join(parts))
     # every element of a field with its table against a twin field object without table (x*g, x^-1, x*1)
     for (p, k, ext) in ([(2, 16, True), (17, 4, False), (5, 7, False), (257, 2, False), (41, 3, False), (3, 2, False), (251, 1, False), (1021, 1, False), (2, 3, True), (7, 1, True)]
                         if tier == "thorough" else [(17, 4, False), (2, 16, True), (3, 3, False), (251, 1, False)]):
